@@ -758,6 +758,8 @@ typename SLUFactor<R>::Status SLUFactor<R>::change(
       vec = subst;
       eta.clear();
       CLUFactor<R>::solveRight(eta.altValues(), vec.get_ptr());
+      // solveRight() wrote through altValues(): the index set has to be rebuilt before changeEta() reads size()
+      eta.setup();
       changeEta(idx, eta);
    }
 
